@@ -18,7 +18,7 @@
 (*                    the property clauses are evaluated on the adopted    *)
 (*                    (= observed) state and failures collected in `viol`. *)
 (***************************************************************************)
-EXTENDS Naturals, Sequences, FiniteSets, TLC, Json, IOUtils
+EXTENDS Integers, Sequences, FiniteSets, TLC, Json, IOUtils
 
 CONSTANTS
   File,        \* model file names, e.g. {"f","g"}
@@ -53,6 +53,7 @@ VARIABLES
   ini,          \* [0..MaxCommit -> [File -> LineMap]]   INITIAL per base
   notes,        \* [1..MaxCommit -> Note]
   snote,        \* Seq([File -> LineMap]) aligned with stash: attribution saved with a stash
+  isnap,        \* ghost: [0..MaxCommit -> [File -> Seq(Line)]] work-tree content when INITIAL[b] was written
   blame,        \* [File -> LineMap]  git-ai blame of HEAD for files whose work tree copy equals HEAD
   l,            \* trace position
   viol,         \* trace mode: set of <<step, property clause>> violated in the current run
@@ -61,7 +62,7 @@ VARIABLES
   hist          \* gen mode: replay script (hidden by VIEW)
 
 gitvars == <<wt, idx, tree, par, ckind, nc, head, stash, truth, nu, der, dirty>>
-aivars  == <<wl, ini, notes, snote, blame>>
+aivars  == <<wl, ini, isnap, notes, snote, blame>>
 vars    == <<gitvars, aivars, l, viol, drift, taint, hist>>
 view    == <<gitvars, aivars, taint>>
 
@@ -107,10 +108,38 @@ GapDeleted(old, new, n) ==
   IN  no - po - 1
 PureIns(old, new) == { n \in Added(old, new) : GapDeleted(old, new, n) = 0 }
 
+\* Hunks of the change old -> new are the gaps between consecutive common lines.  SegAt(c, cm, k) is the part
+\* of content c strictly between the k-th and (k+1)-th common line (k = 0 .. number of common lines).
+CommonPos(c, cm) == { i \in DOMAIN c : c[i] \in cm }
+RECURSIVE KthSmallest(_, _)
+KthSmallest(S, k) == IF k = 1 THEN Min(S) ELSE KthSmallest(S \ {Min(S)}, k - 1)
+SegAt(c, cm, k) ==
+  LET P  == CommonPos(c, cm)
+      n  == Cardinality(P)
+      lo == IF k = 0 THEN 0 ELSE KthSmallest(P, k)
+      hi == IF k = n THEN Len(c) + 1 ELSE KthSmallest(P, k + 1)
+  IN  SubSeq(c, lo + 1, hi - 1)
+\* index content i is "HEAD plus a subset of the hunks of HEAD -> work tree"
+HunkSubset(h, i, w) ==
+  LET cm == Common(h, w)
+      n  == Cardinality(cm)
+  IN  /\ cm \subseteq LinesOf(i)
+      /\ Cardinality(CommonPos(i, cm)) = n
+      /\ \A k \in 0..n : SegAt(i, cm, k) \in {SegAt(h, cm, k), SegAt(w, cm, k)}
+\* stage hunk k of file content: replace HEAD's segment by the work tree's
+RECURSIVE Concat(_, _, _)
+Concat(F(_), a, b) == IF a > b THEN <<>> ELSE F(a) \o Concat(F, a + 1, b)
+StageHunk(h, i, w, k) ==
+  LET cm == Common(h, w)
+      n  == Cardinality(cm)
+      piece(j) == (IF j = k THEN SegAt(w, cm, j) ELSE SegAt(i, cm, j))
+                  \o (IF j = n THEN <<>> ELSE <<i[KthSmallest(CommonPos(i, cm), j + 1)]>>)
+  IN  Concat(piece, 0, n)
+
 -----------------------------------------------------------------------------
 (* git-ai data shapes *)
 
-EmptyEnt == [has |-> FALSE, snap |-> EmptyC, attr |-> <<>>, va |-> <<>>, touched |-> FALSE]
+EmptyEnt == [has |-> FALSE, snap |-> EmptyC, attr |-> <<>>, va |-> <<>>, vaset |-> FALSE, touched |-> FALSE]
 EmptyWL  == [ent |-> [f \in File |-> EmptyEnt], ai |-> FALSE, sess |-> {}]
 NoNote   == [has |-> FALSE, files |-> NoMaps, prompts |-> {}, wf |-> TRUE]
 HeadTree == IF head = 0 THEN AllEmpty ELSE tree[head]
@@ -131,7 +160,7 @@ MarkerClaims(old, new, i) ==
       j == PosOfUid(old, x[1])
   IN  /\ x \notin LinesOf(old)                                  \* re-indented: the line is in a changed hunk
       /\ j < Len(old) /\ Root(old[j + 1][1]) \notin RootsOf(new)    \* the old line after it is truly deleted
-      /\ (i = Len(new) \/ new[i + 1][1] \in UidsOf(old))            \* and is not paired with a fresh line
+      /\ (i = Len(new) \/ Root(new[i + 1][1]) \in RootsOf(old))    \* and is not paired with a fresh line
 Transfer(D, old, oattr, new, a) ==
   [i \in 1..Len(new) |->
      IF new[i][1] \in UidsOf(old)
@@ -150,14 +179,15 @@ CkFiles(W, I, ht, work, index, reported, pre) ==
   IN  IF trk = {} THEN st ELSE trk \cap st
 
 \* entry of file f after a checkpoint by author a (kind "ai" | "human"); result = prior means nothing written
-CkEnt(D, prior, in0, htf, cur, kind, a, pre) ==
+CkEnt(D, prior, in0, isf, htf, cur, kind, a, pre) ==
   LET isAI  == kind = "ai"
       tch   == prior.touched \/ in0 # <<>>
       \* an entry that carries attribution data supersedes what earlier entries said about the file
       \* (virtual_attribution.rs:from_just_working_log; the human-only fast path writes no attribution data)
-      mk(attr) == [has |-> TRUE, snap |-> cur, attr |-> Trim(attr), va |-> Trim(attr),
+      mk(attr) == [has |-> TRUE, snap |-> cur, attr |-> Trim(attr), va |-> Trim(attr), vaset |-> TRUE,
                    touched |-> prior.touched \/ isAI \/ HasAI(attr)]
-      mkBare   == [has |-> TRUE, snap |-> cur, attr |-> <<>>, va |-> prior.va, touched |-> prior.touched]
+      mkBare   == [has |-> TRUE, snap |-> cur, attr |-> <<>>, va |-> prior.va, vaset |-> prior.vaset,
+                   touched |-> prior.touched]
   IN  CASE ~isAI /\ ~tch /\ pre -> prior
         [] ~isAI /\ ~tch ->
               IF cur = (IF prior.has THEN prior.snap ELSE htf) THEN prior ELSE mkBare
@@ -166,17 +196,21 @@ CkEnt(D, prior, in0, htf, cur, kind, a, pre) ==
         [] OTHER ->
               IF cur = htf /\ in0 = <<>> THEN prior
               ELSE IF in0 # <<>>
-                   THEN \* INITIAL names the file: its line numbers are applied to the CURRENT content; an AI
-                        \* checkpoint additionally claims lines beyond HEAD's length that INITIAL does not name
-                        mk([i \in 1..Len(cur) |->
-                              IF At(in0, i) # H THEN At(in0, i)
-                              ELSE IF isAI /\ i > Len(htf) THEN a ELSE H])
+                   THEN \* INITIAL names the file.  As built ("initial_is_line_numbers_only") its line numbers are
+                        \* applied to the CURRENT content, whatever happened to the file since INITIAL was written,
+                        \* and an AI checkpoint additionally claims lines beyond HEAD's length that INITIAL does
+                        \* not name.  The repaired design carries the claims by content.
+                        IF "initial_is_line_numbers_only" \in D
+                        THEN mk([i \in 1..Len(cur) |->
+                                   IF At(in0, i) # H THEN At(in0, i)
+                                   ELSE IF isAI /\ i > Len(htf) THEN a ELSE H])
+                        ELSE mk(Transfer(D, isf, in0, cur, a))
                    ELSE mk(Transfer(D, htf, <<>>, cur, a))
 
-CkResult(D, W, I, ht, work, index, kind, a, reported, pre) ==
+CkResult(D, W, I, IS, ht, work, index, kind, a, reported, pre) ==
   LET skipAll == pre /\ ~W.ai /\ (\A f \in File : I[f] = <<>>)
       fs  == CkFiles(W, I, ht, work, index, reported, pre)
-      ne  == [f \in File |-> IF f \in fs THEN CkEnt(D, W.ent[f], I[f], ht[f], work[f], kind, a, pre)
+      ne  == [f \in File |-> IF f \in fs THEN CkEnt(D, W.ent[f], I[f], IS[f], ht[f], work[f], kind, a, pre)
                              ELSE W.ent[f]]
       wrote == \E f \in File : ne[f] # W.ent[f]
   IN  IF skipAll THEN W
@@ -189,13 +223,27 @@ CkResult(D, W, I, ht, work, index, kind, a, reported, pre) ==
    tp, tc = parent tree and new commit tree of the file; work = work tree copy *)
 
 SplitFile(D, Wf, If, tp, tc, work) ==
-  LET va   == IF Wf.va # <<>> THEN Wf.va ELSE If
+  LET va   == IF Wf.vaset THEN Wf.va ELSE If
       inPS == Wf.touched \/ If # <<>>
       com  == IF inPS THEN Added(tp, tc) ELSE {}
       un0  == IF inPS THEN Added(tc, work) ELSE {}
       pure == IF inPS THEN PureIns(tc, work) ELSE {}
       un   == un0 \ (com \ pure)
-      toC(n) == n - Cardinality({ u \in un : u < n })
+      \* work-tree line -> commit line: undo the net shift (added - removed) of every unstaged hunk above it.
+      \* (Before the fix of D12 the code subtracted every unstaged added line above, also for replacements:
+      \* deviation "wd_to_commit_ignores_unstaged_deletions".)
+      cm   == Common(tc, work)
+      ncm  == Cardinality(cm)
+      endPos(k) == IF k = ncm THEN Len(work) + 1 ELSE KthSmallest(CommonPos(work, cm), k + 1)
+      shift(n) == LET ks == { k \in 0..ncm : endPos(k) <= n }
+                      RECURSIVE Sum(_)
+                      Sum(S) == IF S = {} THEN 0
+                                ELSE LET k == CHOOSE x \in S : TRUE
+                                     IN Len(SegAt(work, cm, k)) - Len(SegAt(tc, cm, k)) + Sum(S \ {k})
+                  IN Sum(ks)
+      toC(n) == IF "wd_to_commit_ignores_unstaged_deletions" \in D
+                THEN n - Cardinality({ u \in un : u < n })
+                ELSE n - shift(n)
   IN  [note |-> MapFromPairs({ <<toC(n), va[n]>> : n \in { k \in AILines(va) : k \notin un /\ toC(k) \in com } }),
        ini  |-> MapFromPairs({ <<n, va[n]>> : n \in { k \in AILines(va) : k \in un } })]
 
@@ -290,25 +338,26 @@ SameG == NG(wt, idx, tree, par, ckind, nc, head)
 
 \* Adopt git-ai's private state.  c* = what the mechanism operators computed.
 AiAdopt(g, cwl, cini, cnotes, fired) ==
-  IF Gen
-  THEN /\ wl' = cwl /\ ini' = cini /\ notes' = cnotes
-       /\ blame' = BlameOf(cnotes, g.tree, g.par, g.head, g.wt)
-       /\ drift' = drift /\ taint' = taint \cup fired
-  ELSE LET ownl == [b \in 0..MaxCommit |-> [ent |-> Ev.obs.wl[b + 1].ent, ai |-> Ev.obs.wl[b + 1].ai,
-                                              sess |-> SetOf(Ev.obs.wl[b + 1].sess)]]
-           oini == From0(Ev.obs.ini)
-           onot == [c \in 1..MaxCommit |-> ObsNote(Ev.obs.notes[c])]
-       IN /\ wl' = ownl /\ ini' = oini /\ notes' = onot
-          /\ blame' = Ev.obs.blame
-          /\ drift' = drift \cup (IF ownl # cwl THEN {<<l, "wl">>} ELSE {})
-                            \cup (IF oini # cini THEN {<<l, "ini">>} ELSE {})
-                            \cup (IF onot # cnotes THEN {<<l, "notes">>} ELSE {})
-                            \cup (IF Ev.obs.blame # BlameOf(onot, g.tree, g.par, g.head, g.wt)
-                                  THEN {<<l, "blame">>} ELSE {})
-          /\ taint' = taint \cup fired
-          /\ (Debug /\ ownl # cwl) => PrintT(<<"DRIFTDETAIL", l, ToJson([field |-> "wl", computed |-> cwl, observed |-> ownl])>>)
-          /\ (Debug /\ oini # cini) => PrintT(<<"DRIFTDETAIL", l, ToJson([field |-> "ini", computed |-> cini, observed |-> oini])>>)
-          /\ (Debug /\ onot # cnotes) => PrintT(<<"DRIFTDETAIL", l, ToJson([field |-> "notes", computed |-> cnotes, observed |-> onot])>>)
+  /\ isnap' = [b \in 0..MaxCommit |-> IF cini[b] # ini[b] THEN g.wt ELSE isnap[b]]
+  /\ IF Gen
+     THEN /\ wl' = cwl /\ ini' = cini /\ notes' = cnotes
+          /\ blame' = BlameOf(cnotes, g.tree, g.par, g.head, g.wt)
+          /\ drift' = drift /\ taint' = taint \cup fired
+     ELSE LET ownl == [b \in 0..MaxCommit |-> [ent |-> Ev.obs.wl[b + 1].ent, ai |-> Ev.obs.wl[b + 1].ai,
+                                                 sess |-> SetOf(Ev.obs.wl[b + 1].sess)]]
+              oini == From0(Ev.obs.ini)
+              onot == [c \in 1..MaxCommit |-> ObsNote(Ev.obs.notes[c])]
+          IN /\ wl' = ownl /\ ini' = oini /\ notes' = onot
+             /\ blame' = Ev.obs.blame
+             /\ drift' = drift \cup (IF ownl # cwl THEN {<<l, "wl">>} ELSE {})
+                               \cup (IF oini # cini THEN {<<l, "ini">>} ELSE {})
+                               \cup (IF onot # cnotes THEN {<<l, "notes">>} ELSE {})
+                               \cup (IF Ev.obs.blame # BlameOf(onot, g.tree, g.par, g.head, g.wt)
+                                     THEN {<<l, "blame">>} ELSE {})
+             /\ taint' = taint \cup fired
+             /\ (Debug /\ ownl # cwl) => PrintT(<<"DRIFTDETAIL", l, ToJson([field |-> "wl", computed |-> cwl, observed |-> ownl])>>)
+             /\ (Debug /\ oini # cini) => PrintT(<<"DRIFTDETAIL", l, ToJson([field |-> "ini", computed |-> cini, observed |-> oini])>>)
+             /\ (Debug /\ onot # cnotes) => PrintT(<<"DRIFTDETAIL", l, ToJson([field |-> "notes", computed |-> cnotes, observed |-> onot])>>)
 AiSame(g) == AiAdopt(g, wl, ini, notes, {})
 
 \* bookkeeping common to every step; in trace mode the property clauses are evaluated on the NEXT state
@@ -328,7 +377,8 @@ NoAgentDirty == \A g \in File : dirty[g] \in {None, H}
 Edit(who, kind, f, c) ==
   /\ Guard(/\ (who = H => NoAgentDirty)
            /\ (who # H => \A g \in File : dirty[g] \in {None, who})
-           /\ Len(c) <= MaxLines)
+           /\ Len(c) <= MaxLines
+           /\ HunkSubset(HeadTree[f], idx[f], c))
   /\ LET fresh == { u \in UidsOf(c) : u >= nu }
      IN /\ truth' = [u \in 1..MaxUid |-> IF u \in fresh THEN who ELSE truth[u]]
         /\ nu' = IF fresh = {} THEN nu ELSE Max(fresh) + 1
@@ -355,7 +405,7 @@ GenEdit ==
 \* ---- explicit checkpoint
 Checkpoint(kind, a, reported) ==
   /\ Guard(IF kind = "ai" THEN \E f \in File : dirty[f] = a ELSE NoAgentDirty)
-  /\ LET op(D) == CkResult(D, wl[head], ini[head], HeadTree, wt, idx, kind, a, reported, FALSE)
+  /\ LET op(D) == CkResult(D, wl[head], ini[head], isnap[head], HeadTree, wt, idx, kind, a, reported, FALSE)
      IN AiAdopt(SameG, [wl EXCEPT ![head] = op(Dev)], ini, notes, FiredDevs(op))
   /\ dirty' = [f \in File |-> IF dirty[f] = a THEN None ELSE dirty[f]]
   /\ GitAdopt(SameG)
@@ -366,13 +416,26 @@ GenCheckpoint ==
   \/ \E s \in Session : Checkpoint("ai", s, { f \in File : dirty[f] = s })
   \/ Checkpoint("human", H, { f \in File : dirty[f] = H })
 
-\* ---- staging (not hooked by git-ai)
-AddFile(f) ==
-  /\ Guard(idx[f] # wt[f] /\ NoAgentDirty)
-  /\ LET g == NG(wt, [idx EXCEPT ![f] = wt[f]], tree, par, ckind, nc, head)
+\* ---- staging (not hooked by git-ai): the index copy of f becomes c
+Stage(f, c, kind) ==
+  /\ Guard(idx[f] # c /\ NoAgentDirty)
+  /\ LET g == NG(wt, [idx EXCEPT ![f] = c], tree, par, ckind, nc, head)
      IN GitAdopt(g) /\ AiSame(g)
   /\ UNCHANGED <<truth, nu, der, dirty, stash, snote>>
-  /\ Step([a |-> "Add", f |-> f])
+  /\ Step([a |-> "Stage", f |-> f, c |-> c, kind |-> kind])
+
+PartitionOK == \A f \in File : HunkSubset(HeadTree[f], idx[f], wt[f])
+
+GenStage ==
+  \E f \in File :
+    \/ "add" \in Alphabet /\ Stage(f, wt[f], "file")
+    \/ /\ "add_hunk" \in Alphabet
+       /\ HunkSubset(HeadTree[f], idx[f], wt[f])
+       /\ \E k \in 0..Cardinality(Common(HeadTree[f], wt[f])) :
+            LET cm == Common(HeadTree[f], wt[f])
+            IN /\ SegAt(idx[f], cm, k) = SegAt(HeadTree[f], cm, k)
+               /\ SegAt(wt[f], cm, k) # SegAt(HeadTree[f], cm, k)
+               /\ Stage(f, StageHunk(HeadTree[f], idx[f], wt[f], k), "hunk")
 
 \* ---- commit.  mode "all" = add -A then commit; "staged" = commit the index; "paths" = commit -- F
 CommitTree(mode, F) ==
@@ -386,7 +449,7 @@ CommitIdx(mode, F) ==
 
 \* pre-commit human checkpoint followed by the split; returns [nf, ni]
 CommitMech(D, b, nt, preIdx) ==
-  LET W1 == CkResult(D, wl[b], ini[b], TreeOf(b), wt, preIdx, "human", H, {}, TRUE)
+  LET W1 == CkResult(D, wl[b], ini[b], isnap[b], TreeOf(b), wt, preIdx, "human", H, {}, TRUE)
       sp == [f \in File |-> SplitFile(D, W1.ent[f], ini[b][f], TreeOf(b)[f], nt[f], wt[f])]
   IN  [nf |-> [f \in File |-> sp[f].note], ni |-> [f \in File |-> sp[f].ini],
        sess |-> W1.sess \cup SessionsIn(ini[b])]
@@ -427,6 +490,7 @@ InitCommon ==
   /\ dirty = [f \in File |-> None]
   /\ wl = [b \in 0..MaxCommit |-> EmptyWL]
   /\ ini = [b \in 0..MaxCommit |-> NoMaps]
+  /\ isnap = [b \in 0..MaxCommit |-> AllEmpty]
   /\ notes = [c \in 1..MaxCommit |-> NoNote]
   /\ blame = NoMaps
   /\ l = 1 /\ viol = {} /\ drift = {} /\ taint = {} /\ hist = <<>>
@@ -451,7 +515,7 @@ Next ==
   /\ Len(hist) < MaxSteps
   /\ \/ "edit" \in Alphabet /\ GenEdit
      \/ "ckpt" \in Alphabet /\ GenCheckpoint
-     \/ "add"  \in Alphabet /\ \E f \in File : AddFile(f)
+     \/ GenStage
      \/ GenCommit
 
 Spec == Init /\ [][Next]_vars
@@ -480,6 +544,7 @@ TrReset ==
   /\ dirty' = [f \in File |-> None]
   /\ wl' = [b \in 0..MaxCommit |-> EmptyWL]
   /\ ini' = [b \in 0..MaxCommit |-> NoMaps]
+  /\ isnap' = [b \in 0..MaxCommit |-> AllEmpty]
   /\ notes' = [c \in 1..MaxCommit |-> NoNote]
   /\ blame' = NoMaps
   /\ viol' = {} /\ drift' = {} /\ taint' = {}
@@ -487,7 +552,7 @@ TrReset ==
 
 TrEdit   == IsEv("Edit") /\ Edit(Ev.who, Ev.kind, Ev.f, Ev.c)
 TrCkpt   == IsEv("Ckpt") /\ Checkpoint(Ev.kind, Ev.who, SetOf(Ev.files))
-TrAdd    == IsEv("Add") /\ AddFile(Ev.f)
+TrAdd    == IsEv("Stage") /\ Stage(Ev.f, Ev.c, Ev.kind)
 TrCommit == IsEv("Commit") /\ Commit(Ev.mode, SetOf(Ev.files))
 
 TraceNext ==
